@@ -150,8 +150,104 @@ func uncoveredImplementations(r *Run, iface *types.Interface, covered []types.Ty
 	return missing
 }
 
+// c01DiscardedOk: in the parser, `x, _ := e.(T)` gives nil when the assertion fails. Such an x must not
+// become part of the tree (returned as a parsed child, handed to a node constructor, stored in a node)
+// unless the function tests it for nil: a child that is nil is dereferenced when the node is evaluated.
+func c01DiscardedOk(r *Run) {
+	pp := r.pkg("parser")
+	if pp == nil {
+		return
+	}
+	info := pp.TypesInfo
+	for _, fd := range funcDecls(pp) {
+		if fd.Body == nil {
+			continue
+		}
+		type cand struct {
+			o   types.Object
+			pos token.Pos
+		}
+		var cands []cand
+		ast.Inspect(fd.Body, func(n ast.Node) bool {
+			as, ok := n.(*ast.AssignStmt)
+			if !ok || len(as.Lhs) != 2 || len(as.Rhs) != 1 {
+				return true
+			}
+			ta, ok := ast.Unparen(as.Rhs[0]).(*ast.TypeAssertExpr)
+			if !ok || ta.Type == nil {
+				return true
+			}
+			okID, isID := as.Lhs[1].(*ast.Ident)
+			if !isID || okID.Name != "_" {
+				return true
+			}
+			t := info.TypeOf(ta.Type)
+			if t == nil {
+				return true
+			}
+			switch t.Underlying().(type) {
+			case *types.Interface, *types.Pointer:
+			default:
+				return true // a failed assertion to a value type gives a usable zero value
+			}
+			if id, ok := as.Lhs[0].(*ast.Ident); ok && id.Name != "_" {
+				o := info.Defs[id]
+				if o == nil {
+					o = info.Uses[id]
+				}
+				if o != nil {
+					cands = append(cands, cand{o, as.Pos()})
+				}
+			}
+			return true
+		})
+		for _, c := range cands {
+			tested, escapes := false, token.NoPos
+			ast.Inspect(fd.Body, func(n ast.Node) bool {
+				switch x := n.(type) {
+				case *ast.BinaryExpr:
+					if (x.Op == token.EQL || x.Op == token.NEQ) && exprStr(x.Y) == "nil" {
+						if id, ok := ast.Unparen(x.X).(*ast.Ident); ok && info.Uses[id] == c.o {
+							tested = true
+						}
+					}
+				case *ast.ReturnStmt:
+					for _, res := range x.Results {
+						if id, ok := ast.Unparen(res).(*ast.Ident); ok && info.Uses[id] == c.o && escapes == token.NoPos {
+							escapes = x.Pos()
+						}
+					}
+				case *ast.CallExpr:
+					if cal := calleeFunc(info, x); cal != nil && cal.Pkg() != nil && cal.Pkg().Path() == modPath+"/node" {
+						for _, a := range x.Args {
+							if id, ok := ast.Unparen(a).(*ast.Ident); ok && info.Uses[id] == c.o && escapes == token.NoPos {
+								escapes = x.Pos()
+							}
+						}
+					}
+				case *ast.KeyValueExpr:
+					if id, ok := ast.Unparen(x.Value).(*ast.Ident); ok && info.Uses[id] == c.o && escapes == token.NoPos {
+						escapes = x.Pos()
+					}
+				}
+				return true
+			})
+			if escapes == token.NoPos {
+				continue
+			}
+			key := funcKey(pp, fd) + "#asserted-child:" + c.o.Name()
+			if tested {
+				r.ok(key, c.pos, "the asserted value is tested for nil before it becomes part of the tree")
+			} else {
+				r.bad(key, c.pos, "the ok result of this type assertion is discarded and "+c.o.Name()+" (nil when the assertion fails) becomes part of the parsed tree at "+r.pos(escapes)+" without a nil test: an accepted source builds a node with a nil child, which is dereferenced at run time instead of reported as a syntax error")
+			}
+		}
+	}
+}
+
 // C01-NIL: operator constructors never store a nil operand.
 func c01Nil(r *Run) {
+	c01DiscardedOk(r)
 	npkg := r.pkg("node")
 	if npkg == nil {
 		return
